@@ -12,21 +12,14 @@ Theorem C18_size_budget : forall i goal size l total,
 Proof. exact walk_is_prefix. Qed.
 Print Assumptions C18_size_budget.
 
-(* Repeating the same command makes no further change *)
-Theorem C18_clean_idempotent : forall o i,
-  (forall c, target_ok o (clean_apply o i) c = target_ok o i c) -> clean_select o (clean_apply o i) = [].
-Proof. exact clean_idempotent. Qed.
+(* Repeating the same command makes no further change: the --target test leaves out the copy on the node being cleaned
+   (repair F-C18d), so the update never feeds back into the selection; ids are unique (primary key) *)
+Theorem C18_clean_idempotent : forall o i, NoDup (map k_id (copies i)) -> clean_select o (clean_apply o i) = [].
+Proof. exact clean_idempotent_always. Qed.
 Print Assumptions C18_clean_idempotent.
-(* ... the hypothesis (the update does not feed back into the --target test) holds without --target, and for every
-   target group other than the cleaned node's own *)
-Theorem C18_clean_no_targets : forall o i, co_targets o = [] -> forall c, target_ok o (clean_apply o i) c = target_ok o i c.
-Proof. exact target_stable_no_targets. Qed.
-Print Assumptions C18_clean_no_targets.
-Theorem C18_clean_other_group : forall o i g f,
-  g <> group_of i (co_node o) -> (forall c, In c (copies i) -> memN (k_id c) (clean_select o i) = true -> k_node c = co_node o) ->
-  in_group_healthy (clean_apply o i) g f = in_group_healthy i g f.
-Proof. exact in_group_healthy_other_group. Qed.
-Print Assumptions C18_clean_other_group.
+Theorem C18_clean_target_stable : forall o i, NoDup (map k_id (copies i)) -> forall c, target_ok o (clean_apply o i) c = target_ok o i c.
+Proof. exact target_stable_always. Qed.
+Print Assumptions C18_clean_target_stable.
 Theorem C18_verify_idempotent : forall o i, verify_select o (verify_apply o i) = [].
 Proof. exact verify_idempotent. Qed.
 Print Assumptions C18_verify_idempotent.
